@@ -1,9 +1,9 @@
 (* C11 model runner.  One case per line:
-   <id> <cfg6bits> <preserve01> <wd> <cwd> <nprep> {d <path> | f <path> <tag> | l <path> <target> | h <path> <earlier file>}* <npush>
-        { B <title> <tag> | U <title> <nent> { (r <name> <tag> <mode> | d <name> <mode> | h <name> <tgt> | s <name> <tgt> | o <name>) <time> }* }*
+   <id> <cfg7bits> <preserve01> <wd as opened> <physical wd> <cwd> <nprep> {d <path> | f <path> <tag> | l <path> <target> | h <path> <earlier file>}* <npush>
+        { B <title> <tag> | M <nlayers> {<title> <tag>}* | (U | F <how>) <title> <nent> { (r <name> <tag> <mode> | d <name> <mode> | h <name> <tgt> | s <name> <tgt> | o <name>) <time> }* }*
    strings are hex ("-" = empty); paths are absolute slash-separated strings; modes decimal.
    Pre-populated directories have mode 0755, files 0644.
-   Output: <id> <verdicts>|<hexpath>:<dMODE|fTAGmMODE|lHEXTARGET>,... sorted by hexpath *)
+   Output: <id> {<O|E><8 hex digits: md5 of the listing after that push>}*|<hexpath>:<dMODE|fTAGmMODE|lHEXTARGET>,... sorted by hexpath *)
 let path_of_string (s : string) : n list list =
   List.filter_map (fun seg -> if seg = "" then None else
     Some (List.map (fun c -> n_of_int (Char.code c)) (List.of_seq (String.to_seq seg))))
@@ -18,9 +18,10 @@ let run_case id toks =
   let next () = match !toks with x :: r -> toks := r; x | [] -> failwith "short line" in
   let bits = next () in
   let bit i = bits.[i] = '1' in
-  let g = { fixH = bit 0; fixA = bit 1; fixR = bit 2; fixN = bit 3; fixW = bit 4; fixT = bit 5 } in
+  let g = { fixH = bit 0; fixA = bit 1; fixR = bit 2; fixN = bit 3; fixW = bit 4; fixT = bit 5; fixK = bit 6 } in
   let pres = (next () = "1") in
   let wd = path_of_string (string_of_hex (next ())) in
+  let physwd = path_of_string (string_of_hex (next ())) in
   let cwd = path_of_string (string_of_hex (next ())) in
   let nprep = int_of_string (next ()) in
   let ents = ref [] and cont = ref [] and ino = ref 0 in
@@ -48,7 +49,9 @@ let run_case id toks =
     match next () with
     | "B" -> let t = str_of_hex (next ()) in let tag = int_of_string (next ()) in
              ops := PBlob (t, n_of_int tag) :: !ops
-    | "U" -> let t = str_of_hex (next ()) in
+    | ("U" | "F") as kd ->
+             let how = if kd = "F" then int_of_string (next ()) else 0 in
+             let t = str_of_hex (next ()) in
              let ne = int_of_string (next ()) in
              let es = ref [] and ts = ref [] in
              for _ = 1 to ne do
@@ -64,24 +67,46 @@ let run_case id toks =
                | k -> failwith ("entry kind " ^ k));
                ts := n_of_int (int_of_string (next ())) :: !ts
              done;
-             ops := PDir (t, List.rev !ts, List.rev !es) :: !ops
+             ops := (if how = 0 then PDir (t, List.rev !ts, List.rev !es)
+                     else PDirF (n_of_int how, t, List.rev !ts, List.rev !es)) :: !ops
+    | "M" -> let nl = int_of_string (next ()) in
+             let ls = ref [] in
+             for _ = 1 to nl do
+               let t = str_of_hex (next ()) in
+               let tag = int_of_string (next ()) in
+               ls := (t, n_of_int tag) :: !ls
+             done;
+             ops := PManifest (List.rev !ls) :: !ops
     | k -> failwith ("push kind " ^ k)
   done;
-  let (st, oks) = pushes g pres wd cwd { st_fs = fs0; st_names = [] } (List.rev !ops) in
-  let f = st.st_fs in
-  let stamp p k = if inside wd p || k = 0 then "" else "@" ^ string_of_int k in
-  let lines = List.map (fun (p, nd) ->
-      let hp = hex_of_path p in
-      match nd with
-      | NDir -> (hp, "d" ^ string_of_int (int_of_n (dir_mode f p)) ^ stamp p (int_of_n (dir_stamp f p)))
-      | NFile i -> let c = int_of_n (content f i) in
-                   (hp, "f" ^ string_of_int (c / 1024) ^ "m" ^ string_of_int (c mod 1024)
-                        ^ stamp p (int_of_n (file_stamp f i)))
-      | NSym (d, _, _) -> (hp, "l" ^ hex_of_str d)) f.ents in
-  let lines = List.sort compare lines in
-  Printf.printf "%s %s|%s\n" id
-    (String.concat "" (List.map (fun b -> if b then "O" else "E") oks))
-    (String.concat "," (List.map (fun (a, b) -> a ^ ":" ^ b) lines))
+  let listing (f : fsys) : string =
+    let stamp p k = if inside physwd p || k = 0 then "" else "@" ^ string_of_int k in
+    let lines = List.map (fun (p, nd) ->
+        let hp = hex_of_path p in
+        match nd with
+        | NDir -> (hp, "d" ^ string_of_int (int_of_n (dir_mode f p)) ^ stamp p (int_of_n (dir_stamp f p)))
+        | NFile i -> let c = int_of_n (content f i) in
+                     (hp, "f" ^ string_of_int (c / 1024) ^ "m" ^ string_of_int (c mod 1024)
+                          ^ stamp p (int_of_n (file_stamp f i)))
+        | NSym (d, _, _) -> (hp, "l" ^ hex_of_str d)) f.ents in
+    let lines = List.sort compare lines in
+    String.concat "," (List.map (fun (a, b) -> a ^ ":" ^ b) lines) in
+  (* one push at a time: the verdict and a digest of the whole tree after every push *)
+  let st = ref { st_fs = fs0; st_names = []; st_d2p = [] } in
+  let steps = List.map (fun o ->
+      let (s1, ok) = push g pres wd cwd !st o in
+      st := s1;
+      (if ok then "O" else "E") ^ String.sub (Digest.to_hex (Digest.string (listing s1.st_fs))) 0 8)
+      (List.rev !ops) in
+  (* the store's book-keeping: Exists for every (title, content) that was pushed or named as a layer,
+     and for every unpack title with content 41 *)
+  let queries = List.concat_map (fun o -> match o with
+      | PBlob (t, c) -> [(t, c)]
+      | PManifest ls -> ls
+      | PDir (t, _, _) -> [(t, n_of_int 41)]
+      | PDirF (_, t, _, _) -> [(t, n_of_int 41)]) (List.rev !ops) in
+  let ex = String.concat "" (List.map (fun (t, c) -> if exists_obs !st t c then "1" else "0") queries) in
+  Printf.printf "%s %s|%s|X%s\n" id (String.concat "" steps) (listing !st.st_fs) ex
 
 let () =
   iter_lines (fun l ->
